@@ -979,6 +979,13 @@ func SameFile(a, b FileInfo) bool { return a.Name() == b.Name() && a.ModTime().E
 // ---------------------------------------------------------------- harness API (no yields, no faults)
 
 // MkdirAll creates a directory and its parents.
+// Chdir sets the working directory relative paths are resolved against.
+func (f *FS) Chdir(name string) {
+	f.mu.Lock()
+	defer f.mu.Unlock()
+	f.cwd = f.clean(name)
+}
+
 func (f *FS) MkdirAll(name string) error {
 	f.mu.Lock()
 	defer f.mu.Unlock()
